@@ -48,7 +48,15 @@ func (c *Config) getScannerConfig() scanner.Config {
 		CompactKey: getCompactKey(c.Prefix),
 		Tombstone:  tombStoneBytes,
 		TTL:        time.Second * time.Duration(eventsTTL),
+
+		TTLKeyPrefix: c.getEventsPrefix(),
 	}
+}
+
+// getEventsPrefix returns the prefix of the keys of kubernetes events, which are the only keys written with ttl.
+// a key of another resource may contain `/events/` as well, i.e. object in a namespace named events
+func (c *Config) getEventsPrefix() []byte {
+	return append([]byte(c.Prefix), events...)
 }
 
 func (c *Config) complete() {
